@@ -185,6 +185,26 @@ func c20Oracle(ctx context.Context, b, bm *board.Board, g *ref.Game, pts *sargon
 			return "plausible-empty", fmt.Sprintf("branch limit %d: no move selected although %d legal moves exist", lim, len(legal))
 		}
 	}
+	// the main-search filters are consulted by searches that are being halted, too: a cancelled
+	// context changes nothing about which moves are legal
+	if len(legal) > 0 {
+		dead, cancel := context.WithCancel(ctx)
+		cancel()
+		_, pick := bernstein.PlausibleMoveTable{Limit: 7}.Explore(dead, b)
+		_, keepDead := sargon.SkipUnderPromotions(dead, b)
+		np, nk := 0, 0
+		for _, m := range implLegalMoves {
+			if pick(m) {
+				np++
+			}
+			if keepDead(m) {
+				nk++
+			}
+		}
+		if np == 0 || nk == 0 {
+			return "filter-empty-when-halted", fmt.Sprintf("with a cancelled context the main-search filters select %d (plausible moves) / %d (no under-promotion) of %d legal moves", np, nk, len(legal))
+		}
+	}
 	// SARGON: no under-promotion keeps at least one move
 	_, keep := sargon.SkipUnderPromotions(ctx, b)
 	n := 0
